@@ -95,10 +95,12 @@ def base_namespace():
     ns = {
         "_eq": _eq, "forall": _forall, "exists": _exists, "implies": lambda a, b: (not a) or bool(b),
         "iff": lambda a, b: bool(a) == bool(b), "sumto": _sumto, "toreal": float,
-        "toint": lambda v: int(v), "abs": abs, "min": min, "max": max, "len": len, "int": int, "float": float,
+        "toint": lambda v: int(v), "floor": lambda v: int(np.floor(v)), "isint": lambda v: float(v).is_integer(), "abs": abs, "min": min, "max": max, "len": len, "int": int, "float": float,
         "sqrt": np.sqrt, "sin": np.sin, "cos": np.cos, "exp": np.exp, "log": np.log, "arctan2": np.arctan2,
         "radians": np.radians, "np": np, "True": True, "False": False, "pi": float(np.pi),
         "creal": lambda v: float(np.real(v)), "cimag": lambda v: float(np.imag(v)),
+        "arr1": lambda n, f: np.array([f(i) for i in range(int(n))]),
+        "arr2": lambda h, w, f: np.array([[f(a, b) for b in range(int(w))] for a in range(int(h))]).reshape(int(h), int(w)),
     }
     for name, sp in SPECS.items():
         ns[name] = sp.py
